@@ -22,6 +22,10 @@ CHECKS = {
    text="every single fault (connection end x operation kind x operation index < 6 x error shape, plus dial failures) over eight relay workloads is enumerated against the real Proxy/halfPipe under simulator-chosen I/O interleavings; pairs of faults and generated workloads are sampled (thorough: pairs enumerated for three workloads)",
    note="trusted: simnet's model of TCP errors (OpError/SyscallError shapes), the synctest fake clock, the seamgen overlay; interleavings are sampled, not enumerated",
    tech=TECH + " (fault enumeration + seeded schedule search over parked I/O operations)"),
+ "C06": dict(cat="exploration", ref="5 C06",
+   text="generated policies (blocklists, allowlists, domain patterns) x covert strings from a grammar of textual address forms x scripted resolver answers that change between lookups; every registration goes through the real ingest pipeline and is followed by a genuine connection through the real station; an independent net/netip evaluator judges each string that reaches the dial seam (literal, non-empty host, permitted, not a blocked domain, resolved exactly once at admission, dialled = checked, permitted well-formed literal accepted unchanged)",
+   note="trusted: the independent evaluator; literals and the empty host are resolved by the real net.ResolveIPAddr (no DNS), names by the scripted resolver; the textual address space is sampled, not enumerated; policy as of admission time",
+   tech=TECH + " (scripted faulty resolver as third party, admission->dial history through the real station, independent oracle at the dial seam)"),
  "C08": dict(cat="exploration", ref="5 C08",
    text="all histories up to length 5 (thorough 6) over a 10-operation alphabet are enumerated and long random histories sampled against the real registry under the simulated clock, compared after every step with an expiry reference model",
    note="trusted: synctest fake clock; the reference model (30 lines) written from the property text; ages within 1 ms of a threshold are don't-cares",
